@@ -601,6 +601,7 @@ func init() { registerReplay("C11", propC11) }
 
 const c11Rule = "rapid-generated HTTP requests against httpgrpc.Server and HandleServices via httptest: method (POST/GET/HEAD/PUT/DELETE/OPTIONS/PATCH/case variants/custom tokens) x path (each registered kind, unregistered, near misses) x Content-Type grammar (known types, case variants, parameters, malformed parameters, unknown, empty, absent, duplicated) x header sets (valid/invalid base64 in -bin headers, good/bad GRPC-Timeout) x body (protobuf, protojson, frame sequences, frame sequences truncated at/inside a frame incl. right after a size preface, arbitrary bytes, hostile prefixes); " +
 	"oracle = gate model: handler entered <=1 times and only if POST + supported media type (mime.ParseMediaType) + all -bin headers decode, otherwise 405/415/400/404 each only if its condition is violated; undecodable unary body => X-GRPC-Status 3 without application code; JSON twin of a protobuf request => equal request, response, status; stream replies parse (reference decoder) as frames + exactly one trailer, nothing after; a request stream cut inside a frame gives the handler its complete messages then a non-EOF error (non-OK trailer when the handler returns it), one cut on a boundary gives EOF; never a panic; " +
+	"also generated since the seeded rounds: servers mounted under a base path (paths outside it and near misses are unknown), a custom ErrorRenderer (never invoked for requests the library must refuse), the per-method HTTP server form; " +
 	"non-trivial = >=1 gate violated, or arbitrary/JSON body, or a frame body to a unary method; distinct by case hash"
 
 func TestC11(t *testing.T) {
